@@ -309,6 +309,26 @@ def _call(c):
                 return {"counts": [int(x) for x in cnt], "labels": lab}
             return {"counts": [[int(x) for x in row] for row in cnt.reshape(nrows, -1)], "labels": lab}
         return r, canon_count
+    if op == "count_big":
+        # long inputs described compactly: row j = its unit repeated and cut to lens[j]
+        from bionumpy.encoded_array import EncodedArray, EncodedRaggedArray
+        alpha = c["alpha"]
+        lens = _big_lens(c)
+        units = c["units"]
+        flat_ = np.concatenate([np.resize(np.array(units[j % len(units)], dtype=np.uint8), L) if L else np.zeros(0, dtype=np.uint8)
+                                for j, L in enumerate(lens)]) if lens else np.zeros(0, dtype=np.uint8)
+        seqs = EncodedRaggedArray(EncodedArray(flat_, _enc(alpha)), np.array(lens, dtype=int))
+        r = count_kmers(seqs, c["k"], axis=c["axis"])
+        if c["axis"] is None:
+            return r, (lambda o: {"counts": [int(x) for x in np.asarray(o.counts)]})
+        return r, (lambda o: {"counts": [[int(x) for x in row] for row in np.asarray(o.counts).reshape(len(lens), -1)]})
+    if op == "count_weighted":
+        from bionumpy.sequence import count_encoded
+        alpha = c["alpha"]
+        km = get_kmers(_input(c), c["k"])
+        w = np.array(c["weights"], dtype=float)
+        r = count_encoded(km.ravel() if c.get("ravel") else km, weights=w, axis=(-1 if w.ndim == 2 else None))
+        return r, (lambda o: {"counts": np.asarray(o.counts, dtype=float).tolist()})
     if op == "kenc":
         from bionumpy.encodings.kmer_encodings import KmerEncoding
         alpha = c["alpha"]
@@ -326,12 +346,32 @@ def _call(c):
     raise ValueError(op)
 
 
+def _big_lens(c):
+    return [L for L, times in c["lens_rle"] for _ in range(times)]
+
+
+def _fresh(c):
+    """run a call sequence in a NEW interpreter (state initialised by the first use in a process, class-level caches)"""
+    import json, os, subprocess, sys
+    code = ("import sys, json; sys.path.insert(0, %r); from harness import core; core.import_bionumpy(); "
+            "from harness.props import c13 as m; print('RESULT' + json.dumps(m.impl(json.loads(sys.argv[1])), default=core._np_default))"
+            % str(core.VERIF))
+    p = subprocess.run([sys.executable, "-c", code, json.dumps({"op": "seq", "calls": c["calls"]})], capture_output=True,
+                       text=True, timeout=120, env=dict(os.environ))
+    for line in p.stdout.splitlines():
+        if line.startswith("RESULT"):
+            return json.loads(line[6:])
+    return {"err": "other:fresh-process-failed"}
+
+
 def _err(e):
     from bionumpy.encodings.exceptions import EncodingError
     return {"err": "encoding"} if isinstance(e, EncodingError) else {"err": "other:" + type(e).__name__}
 
 
 def impl(c):
+    if c["op"] == "fresh":
+        return _fresh(c)
     if c["op"] == "seq":
         # several calls in one process; every result is read only AFTER the last call (shared buffers / caches show up)
         live = []
@@ -364,6 +404,31 @@ def impl_live(c):
     return obj, (lambda o: canon_fn(copy.copy(o)))
 
 
+def mutate_live(obj, c):
+    """the caller overwrites a result it was given (and the label list of a count); the same call must not notice"""
+    done = False
+    if hasattr(obj, "alphabet") and isinstance(obj.alphabet, list) and obj.alphabet:
+        obj.alphabet[0] = "??"
+        obj.alphabet.append("!!")
+        done = True
+    if hasattr(obj, "counts"):
+        np.asarray(obj.counts)[...] = 77
+        return True
+    try:
+        flat = obj.ravel()
+        data = flat.raw() if hasattr(flat, "raw") else flat
+        if data.size:
+            data[...] = (data.max() if data.dtype != bool else True)
+            if data.dtype != bool:
+                data[...] = data + 1
+            else:
+                data[...] = ~data
+            done = True
+    except Exception:
+        pass
+    return done
+
+
 def live_cases(tier, rng):
     pool = [c for c in _seq_pool(rng, 1200 if tier in ("thorough", "widen") else 500)]
     return pool
@@ -381,7 +446,7 @@ def _code(n, win):
 
 def oracle(c):
     op = c["op"]
-    if op == "seq":
+    if op in ("seq", "fresh"):
         res = [oracle(sub) for sub in c["calls"]]
         return SKIP if any(isinstance(r, core.Skip) for r in res) else {"results": res}
     alpha = c["alpha"]
@@ -389,6 +454,44 @@ def oracle(c):
     if op == "kenc":
         return {"codes": [_code(n, km) for km in c["kmers"]], "text": _texts(alpha, c["kmers"]),
                 "inverse": [list(km) for km in c["kmers"]]}
+    if op == "count_big":
+        k = c["k"]
+        units = c["units"]
+        per = []
+        for j, L in enumerate(_big_lens(c)):
+            u = units[j % len(units)]
+            p = len(u)
+            cnt = [0] * (n ** k)
+            nwin = L - k + 1
+            if nwin > 0:
+                for ph in range(min(p, nwin)):                    # windows starting at i = ph (mod p) all spell the same k-mer
+                    code = _code(n, [u[(ph + t) % p] for t in range(k)])
+                    cnt[code] += (nwin - 1 - ph) // p + 1
+            per.append(cnt)
+        if sum(_big_lens(c)) < k:
+            return SKIP
+        if c["axis"] is None:
+            return {"counts": [sum(col) for col in zip(*per)] if per else [0] * (n ** k)}
+        return {"counts": per}
+    if op == "count_weighted":
+        k = c["k"]
+        rows = c["rows"]
+        if sum(len(r) for r in rows) < k or n ** k > 4096 or k > 8:
+            return SKIP
+        codes = [_code(n, x) for r in rows for x in _wins(r, k)]
+        w = c["weights"]
+        if w and isinstance(w[0], list):
+            out = []
+            for wr in w:
+                cnt = [0.0] * (n ** k)
+                for code, x in zip(codes, wr):
+                    cnt[code] += x
+                out.append(cnt)
+            return {"counts": out}
+        cnt = [0.0] * (n ** k)
+        for code, x in zip(codes, w):
+            cnt[code] += x
+        return {"counts": cnt}
     if op == "count_add":
         k = c["k"]
         if n ** k > 4096 or k > 8 or any(sum(len(r) for r in rows) < k for rows in c["parts"]):
@@ -509,7 +612,7 @@ def agree(c, got, exp):
         return isinstance(got, dict) and "err" in got
     if c["op"] == "pwm_old":
         return _agree_float_rows(got, exp)
-    if c["op"] == "seq":
+    if c["op"] in ("seq", "fresh"):
         g = got.get("results") if isinstance(got, dict) else None
         return isinstance(g, list) and len(g) == len(exp["results"]) and \
             all(agree(sub, a, b) for sub, a, b in zip(c["calls"], g, exp["results"]))
@@ -534,7 +637,7 @@ def agree_model(c, got, m):
 
 def model_request(c):
     op = c["op"]
-    if op == "seq":
+    if op in ("seq", "fresh", "count_big", "count_weighted"):
         return None      # the Lean model is pure: a sequence of calls is the list of single calls (compared there)
     n = len(c["alpha"])
     k = c.get("k", 1)
@@ -729,6 +832,46 @@ def cases(tier, rng):
     for c in _seq_pool(rng, 6000 if big else 1200):
         if "rows" in c:
             yield _with_view(rng, c)
+    # 0a. sizes at the constants of the code: the flat count works in blocks of 1,000,000 k-mers; 256 / 65536 codes; > 65536 rows
+    for tot in ((999999, 1000000, 1000001, 1999999, 2000000, 2000001, 3000000) if big else (1000000, 1000001, 2000000, 3000000)):
+        alpha = rng.choice(["ACGT", "ACGTN", "AB"])
+        n = len(alpha)
+        k = rng.choice([1, 2, 3])
+        # rows: one long, one empty, one shorter than k, one making the total number of k-mers exactly `tot`
+        first = rng.randrange(tot // 3, 2 * tot // 3)
+        lens = [first + k - 1, 0, k - 1, (tot - first) + k - 1]
+        units = [[rng.randrange(n) for _ in range(rng.choice([1, 2, 3, 5, 7]))] for _ in range(3)]
+        yield {"op": "count_big", "alpha": alpha, "k": k, "units": units, "lens_rle": [[L, 1] for L in lens], "axis": None}
+    yield {"op": "count_big", "alpha": "ACGT", "k": 2, "units": [[0, 1, 3], [2]], "lens_rle": [[1000001, 1], [3, 1], [1000000, 1]], "axis": -1}
+    yield {"op": "count_big", "alpha": "ACGT", "k": 2, "units": [[0, 1, 3], [2, 2, 1, 0]], "lens_rle": [[3, 40000], [0, 1], [4, 30000]], "axis": None}
+    yield {"op": "count_big", "alpha": "ACGT", "k": 8, "units": [[0, 1, 3, 2, 2, 1], [3, 3, 0]], "lens_rle": [[300, 1], [7, 1], [70, 2]], "axis": None}
+    yield {"op": "count_big", "alpha": "AB", "k": 8, "units": [[0, 1, 1], [1]], "lens_rle": [[300, 1], [9, 3]], "axis": -1}
+    # 0a2. count_encoded with the rarely used `weights` keyword (1-D and 2-D weights over the flat k-mers)
+    for _ in range(200 if big else 30):
+        alpha = rng.choice(["ACGT", "ACGTN", "AB", "ABC"])
+        n = len(alpha)
+        k = rng.choice([1, 2, 3])
+        lens = [rng.choice([0, 1, k - 1, k, k + 1, 6]) for _ in range(rng.choice([1, 2, 3]))]
+        rows = _rand_rows(rng, n, lens)
+        nk = sum(max(0, len(r) - k + 1) for r in rows)
+        if nk == 0:
+            continue
+        if rng.random() < 0.6:
+            w = [float(rng.choice([0, 1, 2, 3, 10])) for _ in range(nk)]
+        else:
+            w = [[float(rng.choice([0, 1, 2, 5])) for _ in range(nk)] for _ in range(rng.choice([1, 2, 3]))]
+        yield {"op": "count_weighted", "alpha": alpha, "rows": rows, "k": k, "weights": w, "ravel": True}
+    # 0a3. call sequences in a NEW interpreter: what the first use in a process initialises must not leak into later uses
+    for _ in range(6 if big else 2):
+        calls = []
+        for alpha in rng.sample(["ACGT", "ACTG", "TGCA", "ACGTN", "ABCDE", "AB", "XY"], 4):
+            n = len(alpha)
+            k = rng.choice([1, 2])
+            rows = _rand_rows(rng, n, [rng.choice([3, 5, 8]), 0, rng.choice([1, 2, 4])])
+            calls.append({"op": rng.choice(["count", "kmers"]), "alpha": alpha, "rows": rows, "k": k, **{"axis": None}})
+            if calls[-1]["op"] == "kmers":
+                calls[-1].pop("axis")
+        yield {"op": "fresh", "calls": calls}
     # 0b. many rows (>= 17) in one call, plain and as views
     for _ in range(300 if big else 40):
         alpha = rng.choice(names)
@@ -891,14 +1034,14 @@ def cases(tier, rng):
 def _w(c):
     if c["op"] in ("regex", "fixedregex"):
         return len(c["items"])
-    if c["op"] == "count_add":
+    if c["op"] in ("count_add", "count_big", "count_weighted"):
         return c["k"]
     return {"kmers": c.get("k"), "minimizers": c.get("w"), "match": len(c.get("pat", [])), "match_same": len(c.get("pat", [])),
             "pwm_old": len(c.get("matrix", [])), "pwm": len(c.get("matrix", [])), "count": c.get("k"), "kenc": c.get("k")}[c["op"]]
 
 
 def nontrivial(c):
-    if c["op"] in ("kenc", "seq", "count_add", "regex", "fixedregex"):
+    if c["op"] in ("kenc", "seq", "fresh", "count_add", "count_big", "count_weighted", "regex", "fixedregex"):
         return True
     w = _w(c)
     return w == 1 or len(c["rows"]) >= 2 or any(len(r) in (0, w - 1, w, w + 1) for r in c["rows"])
@@ -925,14 +1068,19 @@ def _int64_expectation(c):
 def finding_key(c, got, exp):
     """names the failing input class"""
     op = c["op"]
-    if op == "seq":
+    if op == "count_big":
+        tot = sum(max(0, L - c["k"] + 1) for L in _big_lens(c))
+        return f"count:long-input:{'multiple-of' if tot % 1000000 == 0 else 'near'}-1e6-kmers" if tot >= 999000 else "count:many-rows-or-codes"
+    if op == "count_weighted":
+        return "count_encoded:weights"
+    if op in ("seq", "fresh"):
         g = got.get("results") if isinstance(got, dict) else None
         if isinstance(g, list) and len(g) == len(c["calls"]):
             for sub, a, b in zip(c["calls"], g, exp["results"]):
                 if not agree(sub, a, b):
                     single = impl(sub)
                     if agree(sub, single, b):
-                        return f"history:{sub['op']}:result-wrong-only-after-other-calls"
+                        return f"history:{sub['op']}:result-wrong-only-after-other-calls" + (":fresh-process" if op == "fresh" else "")
                     return finding_key(sub, a, b)
         return "history:sequence"
     if "view" in c:
